@@ -174,6 +174,7 @@ func ExecOpts(op M) (res any) {
 	isWriter := asStr(op["kind"]) == "writer"
 	var ws []*writer.Writer
 	var rs []*reader.Reader
+	sharedW, sharedR := map[string]writer.WriterOption{}, map[string]reader.ReaderOption{}
 	var gotA any
 	recA := &recUnser{"a", &gotA}
 	reader.RegisterUnserializer("verif/rec", recA)
@@ -220,6 +221,18 @@ func ExecOpts(op M) (res any) {
 							return "unknown-op"
 						}
 					case "setKey":
+						// "sh": one option value used in several constructor calls (a caller keeping the
+						// common options of his writers in a slice)
+						kv := asStr(xm["key"]) + "\x00" + asStr(xm["val"])
+						if _, shared := xm["sh"]; shared {
+							if o, ok := sharedW[kv]; ok {
+								opts = append(opts, o)
+								break
+							}
+							sharedW[kv] = writer.WithFormatOptions(asStr(xm["key"]), asStr(xm["val"]))
+							opts = append(opts, sharedW[kv])
+							break
+						}
 						opts = append(opts, writer.WithFormatOptions(asStr(xm["key"]), asStr(xm["val"])))
 					}
 				}
@@ -239,6 +252,16 @@ func ExecOpts(op M) (res any) {
 							return "unknown-op"
 						}
 					case "setKey":
+						kv := asStr(xm["key"]) + "\x00" + asStr(xm["val"])
+						if _, shared := xm["sh"]; shared {
+							if o, ok := sharedR[kv]; ok {
+								opts = append(opts, o)
+								break
+							}
+							sharedR[kv] = reader.WithFormatOptions(asStr(xm["key"]), asStr(xm["val"]))
+							opts = append(opts, sharedR[kv])
+							break
+						}
 						opts = append(opts, reader.WithFormatOptions(asStr(xm["key"]), asStr(xm["val"])))
 					default:
 						return "unknown-op"
@@ -422,6 +445,9 @@ func optsGen(g *G, tier string) []M {
 					}
 					for g.Chance(0.35) {
 						settings = append(settings, M{"t": "setKey", "k": 3.0, "key": g.Pick(optKeys[:2]), "val": g.Pick([]string{"v1", "v2", "v3"})})
+						if g.Chance(0.4) {
+							settings[len(settings)-1].(M)["sh"] = true
+						}
 					}
 				} else {
 					if g.Chance(0.3) {
@@ -432,6 +458,9 @@ func optsGen(g *G, tier string) []M {
 					}
 					for g.Chance(0.4) {
 						settings = append(settings, M{"t": "setKey", "k": 2.0, "key": g.Pick(optKeys[:3]), "val": g.Pick([]string{"v1", "v2", "v3"})})
+						if g.Chance(0.4) {
+							settings[len(settings)-1].(M)["sh"] = true
+						}
 					}
 				}
 				g.R.Shuffle(len(settings), func(a, b int) { settings[a], settings[b] = settings[b], settings[a] })
